@@ -117,6 +117,10 @@ class Report:
                 json.dump(v, f, indent=1, default=str)
             print(f"VIOLATION property={self.prop} replay={path}")
             print(f"  signature: {v['signature']}\n  what: {v['what']}")
+        dump = os.environ.get("VERIF_DUMP_VIOLATIONS")
+        if dump:
+            with open(dump, "w") as f:
+                json.dump([{"signature": v["signature"], "what": v["what"]} for v in self.violations], f, indent=1)
         cov = dict(coverage)
         cov.setdefault("samples", self.samples or ["(none)"])
         cov["queries"] = dict(self.queries)
